@@ -729,3 +729,109 @@ End FlexTreesK.
 Print Assumptions C12_taffy_engine_rewritten_layouts_partial.
 Print Assumptions C12_flex_algorithm_example.
 Print Assumptions C12_blockflex_borders_and_flex_basis_example.
+
+(* ------------------------------------------------------------------------------------------------------------ *)
+(** * Whole GRID containers (wave 9e, notes/GRIDREL.md)
+
+   The grid entries of the site table (compute_grid_layout, GridItem::known_dimensions, GridItem::minimum_contribution,
+   align_and_position_item) as THEOREMS about the model: the rewrite of an eligible, NOT compressible-replaced style implies the weak relation
+   `gstyle_wrel 1` (Model/GridAlgRel.v: everything `grid_alg` reads of a style, the box-sizing fields only through the five resolutions it
+   performs), and `grid_alg` (Model/GridAlg.v: all of compute_grid_layout as a resumption, tied bit for bit by `vh gridalg`) is relational for any
+   style relation implying it: the front (preprocessing, explicit counts, placement, track initialisation, items), the sizing program in the
+   monad `Prog` (ProgRel: one lemma per program, the bind lemma, `run`), the final phase.  At k = 1 the two absolute thresholds of the track
+   kernels are unchanged, so the only premise left is the CLASS: `g_eligibleb` excludes `item_is_replaced` items -- the known finding
+   grid-compressible-replaced-max-size (C12_minimum_contribution_refuted) -- hence `_partial`. *)
+From TV Require Model.GridAlgBase Model.GridAlg Model.GridAlgRel Model.GridSizingRel Model.GridRelExample.
+From TV Require Proofs.GridRelKit Proofs.GridStyleRel Proofs.GridRelItems Proofs.GridRelFinal Proofs.GridRelAlg Proofs.GridRelTop.
+Section GridContainers.
+  Import TV.Model.Common TV.Model.Leaf TV.Model.Scale TV.Model.ScaleGrid TV.Model.FlexAlgBase TV.Model.FlexAlgRel.
+  Import TV.Model.GridAlgBase TV.Model.GridAlg TV.Model.GridAlgRel TV.Model.GridSizingRel TV.Model.GridRelExample.
+  Import TV.Model.Engine TV.Model.EngineRel.
+  Import TV.Proofs.GridRelKit TV.Proofs.GridStyleRel TV.Proofs.GridRelItems TV.Proofs.GridRelFinal TV.Proofs.GridRelAlg TV.Proofs.GridRelTop.
+  Import ListNotations.
+
+  (* the rewrite on the grid view of a style IS the rewrite C12_leaf is about on its CoreStyle part; the class is C12_leaf's minus the
+     compressible replaced items *)
+  Theorem C12_grid_rewrite_is_leaf_rewrite : forall s : GStyle XQ,
+    gs_core (g_to_border_box s) = to_border_box (gs_core s) /\ (g_eligibleb s = true -> eligible (gs_core s) /\ gs_replaced s = false).
+  Proof. exact grid_rewrite_is_leaf_rewrite. Qed.
+
+  (* every resolution grid_alg performs on a style is blind to the rewrite: the Gallina form of the grid entries of the site table *)
+  Theorem C12_grid_resolutions_blind : forall s s' : GStyle XQ, gbb_rel s s' -> gstyle_wrel 1 s s'.
+  Proof. exact gbb_weak. Qed.
+
+  (* compute_grid_layout l.50-138: the container's preprocessing record, inputs equal as numbers *)
+  Theorem C12_grid_pre_box_sizing_blind : forall (s s' : GStyle XQ) (i i' : GIn XQ),
+    gbb_rel s s' -> fin_rel 1 i i' -> pre_rel 1 (grid_pre s i) (grid_pre s' i').
+  Proof. exact grid_pre_box_sizing_blind. Qed.
+
+  (* the Prog-level kit (any scale k): the bind lemma, and `run`: programs in lockstep under related continuations are resumptions in lockstep *)
+  Theorem C12_grid_prog_bind : forall k (A B : Type) (RA : A -> A -> Prop) (RB : B -> B -> Prop) (p p' : @Prog XQ A) (g g' : A -> @Prog XQ B),
+    ProgRel k RA p p' -> (forall a a', RA a a' -> ProgRel k RB (g a) (g' a')) -> ProgRel k RB (pbind p g) (pbind p' g').
+  Proof. exact (fun k A B => @pbind_rel k A B). Qed.
+  Theorem C12_grid_prog_run : forall k (A : Type) (RA : A -> A -> Prop) ok (p p' : @Prog XQ A) (K K' : A -> Alg (GIn XQ) (LayoutOutput XQ) (GLay XQ)),
+    ProgRel k RA p p' -> (forall a a', RA a a' -> GAlgRel k (K a) (K' a')) -> GAlgRel k (run ok p K) (run ok p' K').
+  Proof. exact (fun k A => @run_rel k A). Qed.
+
+  (* the item-contribution functions, for items whose styles are related by the weak relation (as `make_item` builds them from gbb_rel
+     children): GridItem::known_dimensions, the measuring queries min / max_content_contribution, and minimum_contribution *)
+  Theorem C12_grid_item_contributions_blind : forall ax (inner inner' area area' : Size (option XQ)) (g g' : @GItem XQ) ts ts',
+    sz_rel (op_rel (sc 1)) inner inner' -> sz_rel (op_rel (sc 1)) area area' -> gitem_rel 1 g g' -> tracks_rel 1 ts ts' ->
+    sz_rel (op_rel (sc 1)) (item_known_dimensions inner area g) (item_known_dimensions inner' area' g') /\
+    ProgRel 1 (sc 1) (min_content_contribution ax inner g area) (min_content_contribution ax inner' g' area') /\
+    ProgRel 1 (sc 1) (max_content_contribution ax inner g area) (max_content_contribution ax inner' g' area') /\
+    ProgRel 1 (pair_rel (sc 1) (gitem_rel 1)) (minimum_contribution ax inner g ts area) (minimum_contribution ax inner' g' ts' area').
+  Proof. exact grid_item_contributions_blind. Qed.
+
+  (* the sizing program (both track sizing passes, container size, percentage re-resolution, re-runs) and the final phase *)
+  Theorem C12_grid_sizing_box_sizing_blind : SizingRel 1.
+  Proof. exact grid_sizing_rel_one. Qed.
+  Theorem C12_grid_final_phase_box_sizing_blind : forall st st' P P' cc rc oof oof' zc zc',
+    gstyle_wrel 1 st st' -> pre_rel 1 P P' -> Forall2 (oof_rel 1) oof oof' -> sized_rel 1 (fst zc) (fst zc') -> snd zc' = snd zc ->
+    GAlgRel 1 (grid_final st P cc rc oof zc) (grid_final st' P' cc rc oof' zc').
+  Proof. exact grid_final_rel_one. Qed.
+
+  (* the grid algorithm is box-sizing blind on the class: the container rewritten or not, ANY subset of its eligible not-replaced children
+     rewritten, inputs equal as numbers: the same children are queried with equal inputs, get equal stored layouts, equal results are
+     returned, given equal answers.  ALL phases of grid_main are covered.  PARTIAL: the class excludes item_is_replaced items (for them the
+     statement is false: C12_minimum_contribution_refuted); numbers are XQ; unrounded layouts. *)
+  Theorem C12_grid_algorithm_box_sizing_blind_partial : forall s s' st st' i i',
+    gbb_rel s s' -> Forall2 gbb_rel st st' -> fin_rel 1 i i' -> GAlgRel 1 (grid_alg s st i) (grid_alg s' st' i').
+  Proof. exact grid_alg_box_sizing_blind. Qed.
+
+  (* the premise of C12_engine for grid containers *)
+  Theorem C12_grid_engine_premise_partial :
+    BoxSizingBlind (GStyle XQ) (GIn XQ) (LayoutOutput XQ) (GLay XQ) (fun _ => True) g_to_border_box (fun s => g_eligibleb s = true)
+                   (fin_rel 1) (output_rel 1) (flay_rel 1) grid_alg.
+  Proof. exact grid_alg_engine_box_sizing_blind. Qed.
+
+  (* non-vacuity, computed: content-box grid container (padding 3, border 1, width 100, `auto 1fr`, gap 2), item a (padding 2, border 1,
+     30 x 10), item b (auto; answers 20 x 8).  Both in the class; the rewrite changes them (100 -> 108, 30 x 10 -> 36 x 16); item a is laid out
+     36 x 16 and b 62 x 16; container and a / only the container / only a rewritten: the same results and stored layouts; the comparison
+     fails when a is replaced by b *)
+  Example C12_grid_algorithm_example :
+    g_eligibleb ge_container = true /\ g_eligibleb ge_a = true /\
+    gbb_rel ge_container (g_to_border_box ge_container) /\ Forall2 gbb_rel [ge_a; ge_b] [g_to_border_box ge_a; ge_b] /\
+    (width (size (gs_core (g_to_border_box ge_container))), box_sizing (gs_core (g_to_border_box ge_container)),
+     size (gs_core (g_to_border_box ge_a))) =
+    (Length (gq 100 + (gq 3 + gq 1 + (gq 3 + gq 1)))%num, BorderBox,
+     mkSize (Length (gq 30 + (gq 2 + gq 1 + (gq 2 + gq 1)))%num) (Length (gq 10 + (gq 2 + gq 1 + (gq 2 + gq 1)))%num)) /\
+    ge_sizes (ge_run ge_container [ge_a; ge_b]) = [(0, gq 36, gq 16); (1, gq 62, gq 16)] /\
+    ge_same (ge_run ge_container [ge_a; ge_b]) (ge_run (g_to_border_box ge_container) [g_to_border_box ge_a; ge_b]) = true /\
+    ge_same (ge_run ge_container [ge_a; ge_b]) (ge_run (g_to_border_box ge_container) [ge_a; ge_b]) = true /\
+    ge_same (ge_run ge_container [ge_a; ge_b]) (ge_run ge_container [g_to_border_box ge_a; ge_b]) = true /\
+    ge_same (ge_run ge_container [ge_a; ge_b]) (ge_run ge_container [ge_b; ge_b]) = false.
+  Proof. exact grid_example. Qed.
+End GridContainers.
+
+Print Assumptions C12_grid_rewrite_is_leaf_rewrite.
+Print Assumptions C12_grid_resolutions_blind.
+Print Assumptions C12_grid_pre_box_sizing_blind.
+Print Assumptions C12_grid_prog_bind.
+Print Assumptions C12_grid_prog_run.
+Print Assumptions C12_grid_item_contributions_blind.
+Print Assumptions C12_grid_sizing_box_sizing_blind.
+Print Assumptions C12_grid_final_phase_box_sizing_blind.
+Print Assumptions C12_grid_algorithm_box_sizing_blind_partial.
+Print Assumptions C12_grid_engine_premise_partial.
+Print Assumptions C12_grid_algorithm_example.
